@@ -854,6 +854,26 @@ func (g gen) genUnm(emit func(vh.Case)) {
 			run(append(append([]byte(nil), out...), byte(g.intn(256)), byte(g.intn(4))), "marshal-output+2")
 		}
 	}
+	// history: a refused sparse payload whose valid prefix was already set, then payloads that must decode into a FRESH bitmap
+	for r := 0; r < e.Scale(10, 60); r++ {
+		for _, via := range []int{1, 2} {
+			st := e.Rnd.Uint32() % (maxTip + 1)
+			poison := g.validPairs(2 + g.intn(20))
+			poison = append(poison, byte(g.intn(256)), byte(4+g.intn(120))) // an element above 1023 at the end
+			emit(runUnm(via, st, poison, "refused-after-valid-prefix"))
+			switch r % 4 {
+			case 0:
+				emit(runUnm(via, st, nil, "empty-after-refused"))
+			case 1:
+				emit(runUnm(via, st, g.validPairs(1+g.intn(5)), "sparse-after-refused"))
+			case 2:
+				emit(runUnm(via, st, g.validPairs(1), "sparse-after-refused"))
+				emit(runUnm(via, st, g.validPairs(3), "sparse-after-refused"))
+			default:
+				emit(runUnm(via, st, g.validPairs(40), "sparse-after-refused"))
+			}
+		}
+	}
 	// sparse strings with repeated elements and with elements in descending order
 	for r := 0; r < e.Scale(20, 400); r++ {
 		k := g.intn(63) + 1
